@@ -40,4 +40,72 @@ def delegations : List String :=
 def runTail : List String :=
   ["proc.Tx.AutoCommit = true", "_, err = proc.Execute(ctx, statements)", "return err"]
 
+/-! ## the end of a transaction: Transaction.Commit / Rollback, ReferenceScope.StoreTemporaryTable / RestoreTemporaryTable
+    (Gen.txEndCalls).  Reviewed against the source: which callees change what the transaction holds or publishes, which only
+    report or compute, and which names the conditions around the first kind may read. -/
+
+/-- callees that change transaction state: the temp file being encoded, the handlers (commit = swap in / make permanent),
+    the uncommitted sets, the temporary tables' restore points and contents, the STDIN table of the session, the locks -/
+def txStateCalls : List String :=
+  ["fp.Truncate", "fp.Seek", "EncodeView", "EncodeEndingLineBreak", "fp.Write", "tx.FileContainer.Commit",
+   "tx.UncommittedViews.Unset", "scope.StoreTemporaryTable", "scope.RestoreTemporaryTable", "tx.UncommittedViews.Clean",
+   "tx.UnlockStdin", "tx.ReleaseResources", "session.updateStdinView", "view.CreateRestorePoint", "view.Restore",
+   "rs.Blocks[i].TemporaryTables.Delete", "rs.Blocks[i].TemporaryTables.Range", "tx.operationMutex.Lock",
+   "tx.operationMutex.Unlock", "append"]
+
+/-- callees that print, build a message or an error value, or only read -/
+def txPrintOrPureCalls : List String :=
+  ["ctx.Err", "ConvertContextError", "tx.UncommittedViews.UncommittedFiles", "make", "len", "tx.CachedViews.Get",
+   "fileInfo.IdentifiedPath", "view.FileInfo.Handler.FileForUpdate", "NewSystemError", "err.Error", "file.VerifPoint",
+   "fileInfo.ExportOptions", "NewCommitError", "NewRollbackError", "tx.LogNotice", "fmt.Sprintf", "strings.Join",
+   "tx.quietForTemporaryViews", "tx.UncommittedViews.UncommittedTempViews", "view.FileInfo.IsStdin",
+   "view.FileInfo.IsTemporaryTable", "view.Copy", "view.FileInfo.IdentifiedPath"]
+
+/-- what a condition around a state-changing call, or a condition that can end the function early, may read: the
+    uncommitted lists and their lengths, the failure of a file-system / encoding step, the cancellation of the context,
+    the table's own attributes and STRIP_ENDING_LINE_BREAK (read by COMMIT on purpose: C01Session), whether a scope was
+    handed in, the walk over the scope's temporary tables.  No output option, no function that reads one. -/
+def txAllowedCondReads : List String :=
+  ["createdFiles", "updatedFiles", "createFileInfo", "updateFileInfo", "len", "nil", "_", "err", "ok", "key", "string",
+   "ctx", "ctx.Err", "fp", "fp.Truncate", "fp.Seek", "fp.Write", "io.SeekStart", "lb", "view", "EncodeView",
+   "fileInfo.ExportOptions", "fileInfo.Format", "fileInfo.SingleLine", "option.FIXED", "tx", "tx.Palette",
+   "tx.Flags.ExportOptions.StripEndingLineBreak", "tx.FileContainer.Commit", "f.Handler", "tx.ReleaseResources",
+   "scope", "rs.Blocks", "uncomittedViews", "view.FileInfo.IsStdin", "view.FileInfo.IsTemporaryTable"]
+
+/-- StoreTemporaryTable / RestoreTemporaryTable, call by call: a changed STDIN table is stored in the session (COMMIT) or
+    dropped so that the next use reads the session's copy again (ROLLBACK); a changed temporary table gets a new restore
+    point (COMMIT) or is put back to its restore point (ROLLBACK); both for every block of the scope -/
+def storeRestoreCalls : List (String × String × List String × List String) := [
+  ("StoreTemporaryTable", "make", [], []),
+  ("StoreTemporaryTable", "len", [], []),
+  ("StoreTemporaryTable", "rs.Blocks[i].TemporaryTables.Range", ["range rs.Blocks"], ["rs.Blocks"]),
+  ("StoreTemporaryTable", "view.FileInfo.IsStdin", ["range rs.Blocks", "_, ok := uncomittedViews[key.(string)]; ok"], ["_", "key", "ok", "rs.Blocks", "string", "uncomittedViews"]),
+  ("StoreTemporaryTable", "session.updateStdinView", ["range rs.Blocks", "_, ok := uncomittedViews[key.(string)]; ok", "view.FileInfo.IsStdin()"], ["_", "key", "ok", "rs.Blocks", "string", "uncomittedViews", "view.FileInfo.IsStdin"]),
+  ("StoreTemporaryTable", "view.Copy", ["range rs.Blocks", "_, ok := uncomittedViews[key.(string)]; ok", "view.FileInfo.IsStdin()"], ["_", "key", "ok", "rs.Blocks", "string", "uncomittedViews", "view.FileInfo.IsStdin"]),
+  ("StoreTemporaryTable", "append", ["range rs.Blocks", "_, ok := uncomittedViews[key.(string)]; ok", "view.FileInfo.IsStdin()"], ["_", "key", "ok", "rs.Blocks", "string", "uncomittedViews", "view.FileInfo.IsStdin"]),
+  ("StoreTemporaryTable", "fmt.Sprintf", ["range rs.Blocks", "_, ok := uncomittedViews[key.(string)]; ok", "view.FileInfo.IsStdin()"], ["_", "key", "ok", "rs.Blocks", "string", "uncomittedViews", "view.FileInfo.IsStdin"]),
+  ("StoreTemporaryTable", "view.FileInfo.IsTemporaryTable", ["range rs.Blocks", "_, ok := uncomittedViews[key.(string)]; ok", "!(view.FileInfo.IsStdin())"], ["_", "key", "ok", "rs.Blocks", "string", "uncomittedViews", "view.FileInfo.IsStdin"]),
+  ("StoreTemporaryTable", "view.CreateRestorePoint", ["range rs.Blocks", "_, ok := uncomittedViews[key.(string)]; ok", "!(view.FileInfo.IsStdin())", "view.FileInfo.IsTemporaryTable()"], ["_", "key", "ok", "rs.Blocks", "string", "uncomittedViews", "view.FileInfo.IsStdin", "view.FileInfo.IsTemporaryTable"]),
+  ("StoreTemporaryTable", "append", ["range rs.Blocks", "_, ok := uncomittedViews[key.(string)]; ok", "!(view.FileInfo.IsStdin())", "view.FileInfo.IsTemporaryTable()"], ["_", "key", "ok", "rs.Blocks", "string", "uncomittedViews", "view.FileInfo.IsStdin", "view.FileInfo.IsTemporaryTable"]),
+  ("StoreTemporaryTable", "fmt.Sprintf", ["range rs.Blocks", "_, ok := uncomittedViews[key.(string)]; ok", "!(view.FileInfo.IsStdin())", "view.FileInfo.IsTemporaryTable()"], ["_", "key", "ok", "rs.Blocks", "string", "uncomittedViews", "view.FileInfo.IsStdin", "view.FileInfo.IsTemporaryTable"]),
+  ("RestoreTemporaryTable", "make", [], []),
+  ("RestoreTemporaryTable", "len", [], []),
+  ("RestoreTemporaryTable", "rs.Blocks[i].TemporaryTables.Range", ["range rs.Blocks"], ["rs.Blocks"]),
+  ("RestoreTemporaryTable", "view.FileInfo.IsStdin", ["range rs.Blocks", "_, ok := uncomittedViews[key.(string)]; ok"], ["_", "key", "ok", "rs.Blocks", "string", "uncomittedViews"]),
+  ("RestoreTemporaryTable", "rs.Blocks[i].TemporaryTables.Delete", ["range rs.Blocks", "_, ok := uncomittedViews[key.(string)]; ok", "view.FileInfo.IsStdin()"], ["_", "key", "ok", "rs.Blocks", "string", "uncomittedViews", "view.FileInfo.IsStdin"]),
+  ("RestoreTemporaryTable", "view.FileInfo.IdentifiedPath", ["range rs.Blocks", "_, ok := uncomittedViews[key.(string)]; ok", "view.FileInfo.IsStdin()"], ["_", "key", "ok", "rs.Blocks", "string", "uncomittedViews", "view.FileInfo.IsStdin"]),
+  ("RestoreTemporaryTable", "append", ["range rs.Blocks", "_, ok := uncomittedViews[key.(string)]; ok", "view.FileInfo.IsStdin()"], ["_", "key", "ok", "rs.Blocks", "string", "uncomittedViews", "view.FileInfo.IsStdin"]),
+  ("RestoreTemporaryTable", "fmt.Sprintf", ["range rs.Blocks", "_, ok := uncomittedViews[key.(string)]; ok", "view.FileInfo.IsStdin()"], ["_", "key", "ok", "rs.Blocks", "string", "uncomittedViews", "view.FileInfo.IsStdin"]),
+  ("RestoreTemporaryTable", "view.FileInfo.IsTemporaryTable", ["range rs.Blocks", "_, ok := uncomittedViews[key.(string)]; ok", "!(view.FileInfo.IsStdin())"], ["_", "key", "ok", "rs.Blocks", "string", "uncomittedViews", "view.FileInfo.IsStdin"]),
+  ("RestoreTemporaryTable", "view.Restore", ["range rs.Blocks", "_, ok := uncomittedViews[key.(string)]; ok", "!(view.FileInfo.IsStdin())", "view.FileInfo.IsTemporaryTable()"], ["_", "key", "ok", "rs.Blocks", "string", "uncomittedViews", "view.FileInfo.IsStdin", "view.FileInfo.IsTemporaryTable"]),
+  ("RestoreTemporaryTable", "append", ["range rs.Blocks", "_, ok := uncomittedViews[key.(string)]; ok", "!(view.FileInfo.IsStdin())", "view.FileInfo.IsTemporaryTable()"], ["_", "key", "ok", "rs.Blocks", "string", "uncomittedViews", "view.FileInfo.IsStdin", "view.FileInfo.IsTemporaryTable"]),
+  ("RestoreTemporaryTable", "fmt.Sprintf", ["range rs.Blocks", "_, ok := uncomittedViews[key.(string)]; ok", "!(view.FileInfo.IsStdin())", "view.FileInfo.IsTemporaryTable()"], ["_", "key", "ok", "rs.Blocks", "string", "uncomittedViews", "view.FileInfo.IsStdin", "view.FileInfo.IsTemporaryTable"])
+]
+
+/-- Container.createHandler when the registration fails: the NEW handler is closed by itself (closeIsolatedHandler closes
+    its parameter with closeWithErrors) — no method of the container, which could only find a handler BY KEY -/
+def createHandlerFailedAddCalls : List (String × String) := [("closeIsolatedHandler", "h, err")]
+def closeIsolatedCalls : List (String × String) :=
+  [("NewCompositeError", "ParseError(err), h.closeWithErrors()"), ("ParseError", "err"), ("h.closeWithErrors", "")]
+
 end Csvq.Ref
